@@ -6,42 +6,46 @@ Property theorems only (helper lemmas: `MJ/Proofs/Blocks.lean`, `MJ/Proofs/Block
 
 * `MJ.Blocks.evalImpl` / `render` (`MJ/Model/Blocks.lean`) is the model of the engine: per-name
   block stacks with a depth cursor, `LoadBlocks`, the switch to the parent's instructions at the
-  end of the instructions, `call_block`, `perform_super`, `perform_include`, import/from-import;
+  end of the instructions, `call_block` (block tags, `self.name()`, required blocks),
+  `perform_super` (emitted and captured), `perform_include`, import/from-import, loops, macro
+  calls, variable frames, and the recursion limit (`outer_stack_depth` + frames, include and
+  macro costs);
 * `MJ.Blocks.specRender` (`MJ/Model/BlocksSpec.lean`) is the specification: no stacks, no
-  cursor, no capture — `defs env chain n` lists the bodies of block `n` from the most- to the
-  least-derived template, a block reference renders `(defs n)[0]`, `super()` at level `k` renders
-  `(defs n)[k+1]`, text before an `extends` tag is emitted, everything outside blocks behind it
-  is dropped, a repeated or missing parent is an error.
+  cursor, no capture stack, no loaded set — `defs env chain n` lists the bodies of block `n` from
+  the most- to the least-derived template, a block reference renders `(defs n)[0]`, `super()` at
+  level `k` renders `(defs n)[k+1]`, statements behind an executed `extends` run silently and
+  render no blocks, a repeated or missing parent is an error, an include is "the first existing
+  template, as a chain of its own, on the includer's frames".
 -/
 namespace MJ.C06
 open MJ.Blocks
 
-/-- Full-strength statement: for every environment of the core fragment (layouts: text / block
-    references, optionally an executed `extends` followed by text / blocks / further `extends`
-    tags; block bodies: text / nested blocks / `super()`, with well-founded nesting), every render
-    context, every template and **every amount of fuel** (so: for chains of any length, including
-    cyclic ones and runs that are cut off) the driver returns exactly what the spec returns —
-    the same output or the same error chain. -/
+/-- Full-strength statement: for every environment in the fragment `EnvOK` — layouts and block
+    bodies made of text, variables, `set`, macros, block tags, `self.name()` (emitted or
+    captured), `super()` (emitted or captured, inside blocks), required blocks, conditional
+    `extends` (executed or not, with anything in front of and behind it), `include` (names,
+    lists, `ignore missing`), `import`, `from … import`, loops and macro calls; block references
+    inside a block go to higher-numbered blocks (well-founded nesting) — for every render context,
+    every template and **every amount of fuel** (so: chains and include nests of any depth,
+    cyclic ones and runs that hit the recursion limit included) the driver returns exactly what
+    the spec returns: the same output or the same error chain. -/
 def C06_full : Prop :=
-  ∀ (env : Env) (ctx : Frame) (fuel main : Nat), CoreEnv env →
-    render env ctx fuel main = specRender env fuel main
+  ∀ (env : Env) (ctx : Frame) (fuel main : Nat), EnvOK env →
+    render env ctx fuel main = specRender env ctx fuel main
 
 theorem blocks_refine_spec : C06_full := by
-  intro env ctx fuel main hcore
+  intro env ctx fuel main henv
   unfold render specRender
   cases hT : env[main]? with
   | none => rfl
   | some T =>
-    have hok : layoutOK T.layout = true := by
-      have := hcore T (List.mem_of_getElem? hT)
-      simp only [templateOK, Bool.and_eq_true] at this
-      exact this.1
-    have hst : ChainSt env [main] (initSt T) :=
-      ⟨prepare_eq_defs env main T hT, fun _ => rfl, fun t => by simp [initSt]⟩
-    have := sim_template env ctx hcore fuel [main] T.layout (initSt T) hst hok (by simp)
+    have hc := (hyp_all env ctx henv fuel).chain [main] T.layout (initSt T) none false 0
+      (initChainSt env main T hT (initSt T)) (henv.layout hT) (by simp)
     simp only []
-    rw [← this]
-    cases evalImpl env ctx fuel none false T.layout (initSt T) with
+    have hfr : (initSt T).frames = [[]] := rfl
+    rw [hfr] at hc
+    rw [← hc]
+    cases evalImpl env ctx fuel none false false 0 T.layout (initSt T) with
     | error e => rfl
     | ok r => rfl
 
@@ -55,37 +59,49 @@ def exEnv : Env :=
     { layout := [.text "<top>", .callBlock 0, .text "<end>"],
       blocks := [(0, [.text "<r0>", .callBlock 1]), (1, [.text "<r1>"])] } ]
 
-example : CoreEnv exEnv := by decide
-example : render exEnv [] 10 0 = .ok ["<pre0>", "<top>", "<c0>", "<r0>", "<m1>", "<end>"] := by decide
-example : specRender exEnv 10 0 = .ok ["<pre0>", "<top>", "<c0>", "<r0>", "<m1>", "<end>"] := by decide
+example : EnvOK exEnv := by decide
+example : render exEnv [] 10 0 = .ok ["<pre0>", "<top>", "<c0>", "<r0>", "<m1>", "<end>"] := by decide +kernel
+example : specRender exEnv [] 10 0 = .ok ["<pre0>", "<top>", "<c0>", "<r0>", "<m1>", "<end>"] := by decide +kernel
 
-/-- `call_block`: whenever the engine is in a state that arises while rendering the definitions
-    `D` (`Good`: stacks = `D`, cursor of the current block at its level, cursors of all blocks
-    that can still be entered at 0), a block reference renders the **most-derived** definition
-    `(D m)[0]` and leaves block stacks, cursors, loaded set and frames as they were. -/
-theorem block_renders_most_derived (env : Env) (ctx : Frame) (D : Nat → List (List Item))
-    (hwf : WF D) (f : Nat) (cur : Option Nat) (k m : Nat) (st : St) (hg : Good D cur k st)
+/-! an include of a template that is an inheritance chain of its own and fills a required block;
+    the includer's block `b0` does not leak into it -/
+def exEnv2 : Env :=
+  [ { layout := [.callBlock 0, .incl [9, 1] false], blocks := [(0, [.text "<a0>"])] },
+    { layout := [.extends true 2, .callBlock 0], blocks := [(0, [.text "<i0>"])] },
+    { layout := [.text "<q:", .callBlock 0, .text ">"], blocks := [(0, [.required])] } ]
+
+example : EnvOK exEnv2 := by decide
+example : render exEnv2 [] 8 0 = .ok ["<a0>", "<q:", "<i0>", ">"] := by decide +kernel
+example : render exEnv2 [] 8 2 = .error [.invalidOperation] := by decide +kernel
+
+/-- `call_block` (block tags and `self.name()`): whenever the engine is in a state that arises
+    while rendering the definitions `D` (`Good`: stacks = `D`, cursor of the current block at its
+    level, cursors of all blocks that can still be entered at 0), a block reference renders the
+    **most-derived** definition `(D m)[0]` (`specBlock`: unknown block and a lone `required`
+    definition are errors) and leaves block stacks, cursors and loaded set as they were. -/
+theorem block_renders_most_derived (env : Env) (ctx : Frame) (henv : EnvOK env)
+    (D : Nat → List (List Item)) (hwf : WF D) (f : Nat) (cur : Option Nat) (k m : Nat)
+    (disc : Bool) (outer : Nat) (st : St) (hg : Good D cur true k st)
     (hm : ∀ n, cur = some n → n < m) :
-    callBlock (evalImpl env ctx f) false m st =
-      if (D m).isEmpty then .error [.unknownBlock] else lift2 (specBody D f m 0) st :=
-  callBlock_good env ctx D f (sim_body env ctx D hwf f) cur k m st hg hm
+    callBlock (evalImpl env ctx f) disc outer m st =
+      liftS (specBlock (specAll env ctx f) D disc outer m st.frames) st :=
+  callBlock_sim (hyp_all env ctx henv f) D hwf cur k m disc outer st hg hm
 
 /-- `super()` inside the `k`-th definition of block `n` renders the `k+1`-st definition — the
     next one up the chain, skipping templates that do not define the block, since `defs` only
     lists definitions — wraps its errors in `EvalBlock`, and puts the cursor back; when there is
-    no further definition it is an error, not empty output. -/
-theorem super_goes_one_up (env : Env) (ctx : Frame) (D : Nat → List (List Item))
-    (hwf : WF D) (f n k : Nat) (st : St) (hg : Good D (some n) k st) :
-    performSuper (evalImpl env ctx f) (some n) false st =
-      if k + 1 < (D n).length then lift2 (liftErr .evalBlock (specBody D f n (k + 1))) st
-      else .error [.invalidOperation] :=
-  performSuper_good env ctx D f (sim_body env ctx D hwf f) n k st hg
+    no further definition it is an error, not empty output (`specSuper`). -/
+theorem super_goes_one_up (env : Env) (ctx : Frame) (henv : EnvOK env)
+    (D : Nat → List (List Item)) (hwf : WF D) (f n k : Nat) (disc : Bool) (outer : Nat) (st : St)
+    (hg : Good D (some n) true k st) :
+    performSuper (evalImpl env ctx f) (some n) disc outer st =
+      liftS (specSuper (specAll env ctx f) D (some (n, k)) disc outer st.frames) st :=
+  performSuper_sim (hyp_all env ctx henv f) D hwf n k disc outer st hg
 
-/-- `Good` states exist and `WF` holds for the definitions of a core environment -/
 example : WF (defs exEnv [0, 1, 2]) := WF_defs exEnv (by decide) [0, 1, 2]
-example : Good (defs exEnv [0, 1, 2]) (some 0) 0
+example : Good (defs exEnv [0, 1, 2]) (some 0) true 0
     { blocks := defs exEnv [0, 1, 2], depth := fun _ => 0, loaded := [2, 1], frames := [[]] } :=
-  ⟨rfl, by intro n hn; cases hn; exact ⟨rfl, by decide⟩, fun _ _ => rfl⟩
+  ⟨rfl, by intro n hn; cases hn; exact ⟨rfl, by decide⟩, fun _ _ _ => rfl⟩
 example : defs exEnv [0, 1, 2] 0 = [[.text "<c0>", .super], [.text "<r0>", .callBlock 1]] := rfl
 
 theorem filterMap_head_eq_findSome {α β : Type} (g : α → Option β) (l : List α) :
@@ -114,32 +130,14 @@ example : blockOf exEnv 1 0 = none := rfl
 example : (defs exEnv [1, 2] 0)[0]? = some [.text "<r0>", .callBlock 1] := rfl
 
 /-- behind an executed `extends` tag everything outside blocks is discarded: text produces no
-    output and block references are skipped (they only *define*), whatever the reader, the
-    callback and the state are -/
+    output and block tags are skipped (they only *define*), whatever the reader, the callback
+    and the state are -/
 theorem child_text_discarded (rd : Rd) (rec : Rec) (p post : List Item) (st : St)
     (h : post.all Item.isPlain = true) :
-    stepItems rd rec (some p) post st = .ok ([], st, some p) := by
-  have hpost : post.all Item.isPost = true := by
-    rw [List.all_eq_true] at h ⊢
-    intro it hit
-    have := h it hit
-    cases it <;> simp_all [Item.isPlain, Item.isPost]
-  have hno : hasExecExtends post = false := by
-    clear hpost
-    induction post with
-    | nil => rfl
-    | cons it rest ih =>
-      simp only [List.all_cons, Bool.and_eq_true] at h
-      cases it with
-      | «extends» exec t =>
-        cases exec with
-        | true => simp [Item.isPlain] at h
-        | false => exact ih h.2
-      | _ => first | exact ih h.2 | simp [Item.isPlain] at h
-  rw [post_silent rd rec p post hpost st, hno]
-  rfl
+    stepItems rd rec (some p) post st = .ok ([], st, some p) :=
+  post_plain_silent rd rec p post st h
 
-example : stepItems ⟨exEnv, [], none, false⟩ (evalImpl exEnv [] 5) (some [])
+example : stepItems ⟨exEnv, [], none, false, false, 0⟩ (evalImpl exEnv [] 5) (some [])
     [.text "<post0>", .callBlock 0] (initSt exEnv[0]) = .ok ([], initSt exEnv[0], some []) :=
   child_text_discarded _ _ _ _ _ rfl
 
@@ -165,53 +163,86 @@ theorem extends_terminates (env : Env) (t : Nat) (st : St)
 example : ∃ st' l, loadBlocks exEnv 1 (initSt exEnv[0]) = .ok (st', l) ∧ st'.loaded = [1] :=
   ⟨_, _, rfl, rfl⟩
 
-/-- every inheritance cycle ends in a *detected* error: if every template of a core environment
-    extends something (text, then an executed `extends`), rendering any template with fuel for
-    `|env| + 1` template activations — or any larger amount — is the cycle error or
-    template-not-found; never success, never truncated output, and not the recursion limit. -/
-theorem cycle_is_detected_error (env : Env) (ctx : Frame) (hcore : CoreEnv env)
+/-- rendering terminates on its own: the recursion limit (`outer_stack_depth` + frames against
+    `recursion_limit`, an include costing `INCLUDE_RECURSION_COST ≥ 1`) bounds every nest of
+    blocks, `super()`s, includes, imports, loops and macro calls, and an inheritance chain has at
+    most `|env|` links; so with `(LIMIT - 1)·(|env| + 2) + |env| + 1` levels of model fuel — or
+    more — the fuel is never what stops a render: the result is the output or a genuine error
+    (cycle, missing template, recursion limit, …). -/
+theorem rendering_terminates (env : Env) (ctx : Frame) (henv : EnvOK env) (main fuel : Nat)
+    (hfuel : W env.length 2 + env.length + 1 ≤ fuel) :
+    ∀ e, render env ctx fuel main = .error e → Kind.recursion ∉ e := by
+  rw [blocks_refine_spec env ctx fuel main henv]
+  unfold specRender
+  cases hT : env[main]? with
+  | none => intro e he; cases he; simp
+  | some T =>
+    have hl : 0 + ([[]] : List Frame).length ≤ LIMIT := by decide
+    have := (term_all env ctx fuel).chain [main] false 0 T.layout [[]] (by simp) (by simp) (by simp) hl
+      (by simpa using hfuel)
+    intro e he
+    simp only [] at he
+    cases hr : (specAll env ctx fuel).chain [main] false 0 T.layout [[]] with
+    | error e' => rw [hr] at he; cases he; exact this.1 _ hr
+    | ok r => rw [hr] at he; cases he
+
+/-- every inheritance cycle ends in a *detected* error: if every template of the environment
+    extends something (text, an executed `extends`, then text / block tags / `extends` tags),
+    rendering any template with fuel for `|env| + 1` template activations — or any larger
+    amount — is the cycle error or template-not-found; never success, never truncated output,
+    and not the recursion limit. -/
+theorem cycle_is_detected_error (env : Env) (ctx : Frame) (henv : EnvOK env)
     (hall : ∀ T ∈ env, extendsAfterText T.layout = true) (main fuel : Nat)
     (hmain : main < env.length) (hfuel : env.length + 1 ≤ fuel) :
     render env ctx fuel main = .error [.invalidOperation] ∨
       render env ctx fuel main = .error [.templateNotFound] := by
-  rw [blocks_refine_spec env ctx fuel main hcore]
+  rw [blocks_refine_spec env ctx fuel main henv]
   unfold specRender
   have hT : env[main]? = some env[main] := List.getElem?_eq_getElem hmain
   rw [hT]
-  exact cycle_detected_spec env hall env.length fuel [main] _ (by simp) (by simp) (by simp)
-    (by simp) hfuel (hall _ (List.getElem_mem hmain))
+  have := cycle_detected_spec env ctx hall env.length fuel [main] false 0 env[main].layout [[]]
+    (by simp) (by simp) (by simp) (by simp) hfuel (hall _ (List.getElem_mem hmain))
+  rcases this with h | h <;> simp [h]
 
 def cycEnv : Env :=
   [ { layout := [.text "<a>", .extends true 1, .callBlock 0], blocks := [(0, [.text "<a0>", .super])] },
     { layout := [.text "<b>", .extends true 0], blocks := [] } ]
 
-example : CoreEnv cycEnv := by decide
+example : EnvOK cycEnv := by decide
 example : ∀ T ∈ cycEnv, extendsAfterText T.layout = true := by decide
-example : render cycEnv [] 3 0 = .error [.invalidOperation] := by decide
-example : render cycEnv [] 50 0 = .error [.invalidOperation] := by decide
+example : render cycEnv [] 3 0 = .error [.invalidOperation] := by decide +kernel
 
-/-- rendering terminates on its own: for a core environment whose block names are below `B`,
-    nesting fuel of `|env| + B·(|env|+2) + |env| + 3` is never exhausted, whatever the template —
-    the result is the rendered output or a genuine error (cycle, missing template, `super()`
-    without parent, …), never the recursion limit.  Inheritance cycles included. -/
-theorem rendering_terminates (env : Env) (ctx : Frame) (hcore : CoreEnv env) (B : Nat)
-    (hB : ∀ T ∈ env, ∀ p ∈ T.blocks, p.1 < B) (main fuel : Nat)
-    (hfuel : env.length + (B * (env.length + 2) + (env.length + 1)) + 2 ≤ fuel) :
-    noRec (render env ctx fuel main) := by
-  rw [blocks_refine_spec env ctx fuel main hcore]
-  unfold specRender
-  cases hT : env[main]? with
-  | none => intro e he; cases he; simp
-  | some T =>
-    have hok : layoutOK T.layout = true := by
-      have := hcore T (List.mem_of_getElem? hT)
-      simp only [templateOK, Bool.and_eq_true] at this
-      exact this.1
-    exact specTemplate_noRec env hcore B hB fuel [main] T.layout (by simp) (by simp) (by simp)
-      (by simpa using hfuel) hok
+/-- include cycles end in the recursion-limit error: if every template includes some existing
+    template (text, then an unconditional `include`), rendering any template is an error for
+    every fuel — `BadInclude` wrappers around the innermost error — and with the fuel of
+    `rendering_terminates` that innermost error is the engine's `InvalidOperation` (recursion
+    limit exceeded), not the model's fuel. -/
+theorem include_cycle_errors (env : Env) (ctx : Frame) (henv : EnvOK env)
+    (hall : ∀ T ∈ env, includesAfterText env T.layout = true) (main fuel : Nat)
+    (hmain : main < env.length) :
+    (∃ e, render env ctx fuel main = .error e ∧ IncErr e) ∧
+    (W env.length 2 + env.length + 1 ≤ fuel →
+      ∃ j, render env ctx fuel main = .error (List.replicate j Kind.badInclude ++ [.invalidOperation])) := by
+  have hT : env[main]? = some env[main] := List.getElem?_eq_getElem hmain
+  obtain ⟨e, he, hie⟩ := include_cycle_spec env ctx hall fuel main hmain _ hT false 0 [[]]
+  have hr : render env ctx fuel main = .error e := by
+    rw [blocks_refine_spec env ctx fuel main henv]
+    unfold specRender
+    rw [hT]; simp only [he]
+  refine ⟨⟨e, hr, hie⟩, ?_⟩
+  intro hf
+  obtain ⟨j, k, hjk, hk⟩ := hie
+  have hno := rendering_terminates env ctx henv main fuel hf e hr
+  rcases hk with rfl | rfl
+  · exact ⟨j, by rw [hr, hjk]⟩
+  · exact absurd (by rw [hjk]; simp) hno
 
-example : ∀ T ∈ exEnv, ∀ p ∈ T.blocks, p.1 < 2 := by decide
-example : ∀ T ∈ cycEnv, ∀ p ∈ T.blocks, p.1 < 1 := by decide
+def incCycEnv : Env :=
+  [ { layout := [.text "<a>", .incl [1] true, .text "<z>"], blocks := [] },
+    { layout := [.incl [0] false], blocks := [] } ]
+
+example : EnvOK incCycEnv := by decide
+example : ∀ T ∈ incCycEnv, includesAfterText incCycEnv T.layout = true := by decide
 
 /-- once a template has executed an `extends`, a further executed `extends` in the same template
     is an error, whatever stands in between and whatever its target is -/
@@ -222,7 +253,7 @@ theorem double_extends_error (rd : Rd) (rec : Rec) (p mid post : List Item) (t :
 
 example : render
     [ { layout := [.extends true 1, .text "<x>", .extends true 1], blocks := [] },
-      { layout := [.text "<p>"], blocks := [] } ] [] 10 0 = .error [.invalidOperation] := by decide
+      { layout := [.text "<p>"], blocks := [] } ] [] 10 0 = .error [.invalidOperation] := by decide +kernel
 
 /-- missing templates are errors, not truncated output: `extends` of a missing name fails with
     template-not-found at the tag; an include list of which no name exists fails unless
@@ -230,64 +261,70 @@ example : render
 theorem missing_is_error_not_truncation (rd : Rd) (rec : Rec) (st : St) :
     (∀ t rest, t ∉ st.loaded → rd.env.length ≤ t →
         stepItems rd rec none (.extends true t :: rest) st = .error [.templateNotFound]) ∧
-    (∀ cur disc ign names, (∀ m ∈ names, rd.env[m]? = none) →
-        performInclude rd.env rec cur disc ign names false st =
+    (∀ cur disc ign outer names, (∀ m ∈ names, rd.env[m]? = none) →
+        performInclude rd.env rec cur disc ign outer names false st =
           if !names.isEmpty && !ign then .error [.templateNotFound] else .ok ([], st)) := by
   refine ⟨fun t rest h1 h2 => extends_missing_error rd rec t rest st h1 h2, ?_⟩
-  intro cur disc ign names h
-  rw [performInclude_all_missing rd.env rec cur disc ign names h false st]
+  intro cur disc ign outer names h
+  rw [performInclude_all_missing rd.env rec cur disc ign outer names h false st]
   simp
 
 example : render [ { layout := [.text "<a>", .extends true 7], blocks := [] } ] [] 10 0
-    = .error [.templateNotFound] := by decide
+    = .error [.templateNotFound] := by decide +kernel
 example : render [ { layout := [.text "<a>", .incl [7, 8] false, .text "<z>"], blocks := [] } ] [] 10 0
-    = .error [.templateNotFound] := by decide
+    = .error [.templateNotFound] := by decide +kernel
 example : render [ { layout := [.text "<a>", .incl [7, 8] true, .text "<z>"], blocks := [] } ] [] 10 0
-    = .ok ["<a>", "<z>"] := by decide
+    = .ok ["<a>", "<z>"] := by decide +kernel
 
 /-- an include renders the **first existing** name of its list: missing names in front of it are
     skipped, the names behind it are irrelevant, `ignore missing` plays no role.  The template is
     rendered as a chain of its own (fresh block table, empty loaded set) on the includer's frames
-    (= with the includer's current variables); afterwards the includer's block stacks, cursors
-    and loaded set are back; an error inside it is wrapped in `BadInclude` — never swallowed. -/
-theorem include_first_existing (env : Env) (rec : Rec) (cur : Option Nat) (disc ign : Bool)
+    (= with the includer's current variables) at `INCLUDE_RECURSION_COST` more depth (an error
+    when that exceeds the recursion limit); afterwards the includer's block stacks, cursors and
+    loaded set are back; an error inside it is wrapped in `BadInclude` — never swallowed. -/
+theorem include_first_existing (env : Env) (rec : Rec) (cur : Option Nat) (disc ign : Bool) (outer : Nat)
     (missing more : List Nat) (t : Nat) (T : Template)
     (hmiss : ∀ m ∈ missing, env[m]? = none) (hT : env[t]? = some T) (st : St) :
-    performInclude env rec cur disc ign (missing ++ t :: more) false st =
-      match rec cur disc T.layout { st with blocks := prepare T.blocks, depth := fun _ => 0, loaded := [] } with
-      | .error e => .error (.badInclude :: e)
-      | .ok (o, st') =>
-        .ok (o, { blocks := st.blocks, depth := st.depth, loaded := st.loaded,
-                  frames := st'.frames.take st.frames.length }) :=
-  performInclude_first env rec cur disc ign missing more t T hmiss hT false st
+    performInclude env rec cur disc ign outer (missing ++ t :: more) false st =
+      if outer + INCLUDE_COST + st.frames.length > LIMIT then .error [.invalidOperation]
+      else
+        match rec cur disc false (outer + INCLUDE_COST) T.layout
+            { st with blocks := prepare T.blocks, depth := fun _ => 0, loaded := [] } with
+        | .error e => .error (.badInclude :: e)
+        | .ok (o, st') =>
+          .ok (o, { blocks := st.blocks, depth := st.depth, loaded := st.loaded,
+                    frames := st'.frames.take st.frames.length }) :=
+  performInclude_first env rec cur disc ign outer missing more t T hmiss hT false st
 
 def incEnv : Env :=
   [ { layout := [.setVar 1 "L", .incl [9, 1, 2] false], blocks := [] },
     { layout := [.text "<x:", .emitVar 1, .text ">"], blocks := [] },
     { layout := [.text "<y>"], blocks := [] } ]
 
-example : render incEnv [] 10 0 = .ok ["<x:", "L", ">"] := by decide
+example : render incEnv [] 10 0 = .ok ["<x:", "L", ">"] := by decide +kernel
 
 /-- `import` / `from … import` expose exactly the imported template's top-level assignments.
     For a module template (text, `set`, macro definitions at top level — `assigns` lists what
     they leave behind): `{% import t as v %}` binds `v` to a module whose entries are exactly
     those assignments, `{% from t import name as alias %}` binds `alias` to the module's value of
     `name` and to *undefined* when the module does not assign `name` — independently of the
-    importer's frames and render context — and neither changes anything else in the state. -/
-theorem import_exports_toplevel (env : Env) (ctx : Frame) (f : Nat) (cur : Option Nat) (d0 : Bool)
-    (parent : Option (List Item)) (t : Nat) (T : Template) (hT : env[t]? = some T)
-    (hs : T.layout.all Item.isAssign = true) (rest : List Item) (st : St) :
-    (∀ v, stepItems ⟨env, ctx, cur, d0⟩ (evalImpl env ctx (f + 1)) parent (.importAs t v :: rest) st =
-        stepItems ⟨env, ctx, cur, d0⟩ (evalImpl env ctx (f + 1)) parent rest
+    importer's frames and render context — and neither changes anything else in the state.
+    (`hd`: the import stays below the recursion limit.) -/
+theorem import_exports_toplevel (env : Env) (ctx : Frame) (f : Nat) (cur : Option Nat) (d0 e0 : Bool)
+    (outer : Nat) (parent : Option (List Item)) (t : Nat) (T : Template) (hT : env[t]? = some T)
+    (hs : T.layout.all Item.isAssign = true) (rest : List Item) (st : St)
+    (hd : outer + INCLUDE_COST + (st.frames.length + 1) ≤ LIMIT) :
+    (∀ v, stepItems ⟨env, ctx, cur, d0, e0, outer⟩ (evalImpl env ctx (f + 1)) parent (.importAs t v :: rest) st =
+        stepItems ⟨env, ctx, cur, d0, e0, outer⟩ (evalImpl env ctx (f + 1)) parent rest
           { st with frames := store st.frames v (.module (dedupKeys (assigns T.layout []))) }) ∧
     (∀ name alias,
-        stepItems ⟨env, ctx, cur, d0⟩ (evalImpl env ctx (f + 1)) parent (.fromImport t name alias :: rest) st =
-        stepItems ⟨env, ctx, cur, d0⟩ (evalImpl env ctx (f + 1)) parent rest
+        stepItems ⟨env, ctx, cur, d0, e0, outer⟩ (evalImpl env ctx (f + 1)) parent (.fromImport t name alias :: rest) st =
+        stepItems ⟨env, ctx, cur, d0, e0, outer⟩ (evalImpl env ctx (f + 1)) parent rest
           { st with frames := store st.frames alias ((lookupVal name (assigns T.layout [])).getD .undef) }) ∧
     (∀ name, T.layout.all (fun it => !assignsVar name it) = true →
         lookupVal name (assigns T.layout []) = none) := by
-  refine ⟨fun v => importAs_step env ctx f cur d0 parent t v T hT hs rest st,
-    fun name alias => fromImport_step env ctx f cur d0 parent t name alias T hT hs rest st, ?_⟩
+  refine ⟨fun v => importAs_step env ctx f cur d0 e0 outer parent t v T hT hs rest st hd,
+    fun name alias => fromImport_step env ctx f cur d0 e0 outer parent t name alias T hT hs rest st hd, ?_⟩
   intro name h
   rw [lookup_assigns_other name T.layout [] h]
   rfl
@@ -298,10 +335,10 @@ def modT : Template :=
 /-- the importer's own `v3` (local and in the render context) is not what `m.v3` or
     `from m import v3` yield; the module's last assignment of `v2` and its macro are -/
 example : render [ { layout := [.setVar 3 "mine", .importAs 1 8, .emitAttr 8 3, .text "|", .emitAttr 8 2],
-                     blocks := [] }, modT ] [(3, .str "ctx")] 10 0 = .ok ["|", "b"] := by decide
+                     blocks := [] }, modT ] [(3, .str "ctx")] 10 0 = .ok ["|", "b"] := by decide +kernel
 example : render [ { layout := [.fromImport 1 3 7, .text "[", .emitVar 7, .text "]"], blocks := [] }, modT ]
-    [(3, .str "ctx")] 10 0 = .ok ["[", "]"] := by decide
+    [(3, .str "ctx")] 10 0 = .ok ["[", "]"] := by decide +kernel
 example : render [ { layout := [.fromImport 1 4 6, .callVar 6], blocks := [] }, modT ]
-    [(3, .str "ctx")] 10 0 = .ok ["<mac>"] := by decide
+    [(3, .str "ctx")] 10 0 = .ok ["<mac>"] := by decide +kernel
 
 end MJ.C06
